@@ -433,6 +433,12 @@ func fileSeek(L *LState) int {
 	var pos int64
 	var err error
 
+	// output held back by setvbuf("full") belongs at the position before the seek
+	if bwriter, ok := file.writer.(*bufio.Writer); ok {
+		if err = bwriter.Flush(); err != nil {
+			goto errreturn
+		}
+	}
 	err = file.AbandonReadBuffer()
 	if err != nil {
 		goto errreturn
